@@ -183,7 +183,7 @@ def extra(ctx):
                         "replay_cmd": f"./check.py C15 --replay <this file>",
                     })
         for g in guards.get((c.n, 0), set()):
-            key = g if not g.startswith("glue:") else "glue-hazard"
+            key = g if not g.startswith("glue") else g.split(":")[0]
             guard_hist[key] = guard_hist.get(key, 0) + 1
     known = [f"{open_findings[i]['what']} [{i}; {n} failing operations this run]" for i, n in sorted(known_hits.items())]
     coverage = {
